@@ -83,6 +83,18 @@ def candidates(form, k, rng, pos):
     sp = parse_spec(form["ops"][k])
     kind = sp[0]
     src = form["opsrc"][k]
+    if (kind in (".vany", ".velem") and int(sp[2]) > 0) or kind == ".gpNext":
+        delta = int(sp[3]) if kind == ".gpNext" else int(sp[2])
+        head = k - delta
+        hd, _ = candidates(form, head, rng, pos)
+        a = hd[0][1:].split(".")
+        base = int(a[1])
+        mk = lambda i: "r" + ".".join([a[0], str(i)] + a[2:])
+        d = [mk((base + delta) % 32)]
+        alts = [[mk((base + delta + x) % 32)] for x in (1, 2, 31)] + [[mk(40)]]
+        if kind != ".gpNext":
+            alts += [["r%d.%d.%d" % (10 if a[0] == "11" else 11, (base + delta) % 32, int(a[2]) if len(a) > 2 else 1)]]
+        return d, alts
     if kind in (".gp", ".gpNext"):
         rts = {"w32": [5], "x64": [6], "any": [6, 5]}[sp[1].lstrip(".")]
         d = [reg(rts[0], 2 + k)]
@@ -219,6 +231,42 @@ def candidates(form, k, rng, pos):
     return [reg(6, 2 + k)], [[reg(6, i)] for i in (0, 30, 31, 63, 40)] + [[reg(5, 2)], [reg(11, 2, 3)], [reg(10, 2)]]
 
 
+def tok_tag(d, t):
+    """what distinguishes operand token t from the valid default d (names the kind of boundary probed)"""
+    if d is None or t is None:
+        return "opcount"
+    if t[0] != d[0] or (t[:2] == "ml") != (d[:2] == "ml"):
+        return "kind"
+    if t[0] == "r":
+        a, b = d[1:].split("."), t[1:].split(".")
+        if a[0] != b[0]:
+            return "regtype"
+        if len(a) != len(b):
+            return "elemidx" if max(len(a), len(b)) == 4 else "elemtype"
+        if len(a) > 2 and a[2] != b[2]:
+            return "elemtype"
+        rid = int(b[1])
+        if a[1] != b[1]:
+            return "id31" if rid == 31 else "id63" if rid == 63 else "id>31" if rid > 31 else "id"
+        return "elemidx-value"
+    if t[0] == "i":
+        a, b = (d[1:] + ".0").split(".")[:2], (t[1:] + ".0").split(".")[:2]
+        return "imm-pred" if a[1] != b[1] else "imm"
+    if t[0] == "m" and t[:2] != "ml":
+        a, b = d[1:].split("."), t[1:].split(".")
+        names = ["mem-basetype", "mem-baseid", "mem-index", "mem-index", "mem-shift", "mem-shift", "mem-mode", "mem-off"]
+        diff = [names[i] for i in range(8) if a[i] != b[i]]
+        return "+".join(sorted(set(diff))) or "same"
+    return "other"
+
+
+def line_tag(dflat, tflat):
+    if len(dflat) != len(tflat):
+        return "opcount"
+    tags = [tok_tag(a, b) for a, b in zip(dflat, tflat) if a != b]
+    return "+".join(sorted(set(tags))) or "valid"
+
+
 def gen_ops(forms, name2ids, rng, tier):
     """emit lines for every database form of an implemented mnemonic"""
     ops = []
@@ -235,7 +283,8 @@ def gen_ops(forms, name2ids, rng, tier):
         except Exception as e:           # a pattern the generator does not know: skip the form (counted)
             raise
         defaults = [c[0] for c in cands]
-        lines = set()
+        dflat = [t for d in defaults for t in d]
+        lines = {}
         for iid in ids:
             if f.get("cond"):
                 ccs = [2, 3, 15, 1]
@@ -243,20 +292,24 @@ def gen_ops(forms, name2ids, rng, tier):
                 ccs = [0]
             for cc in ccs:
                 head = "emit %d %d %d" % (pos, iid, cc)
-                lines.add(head + "".join(" " + t for d in defaults for t in d))
+                lines.setdefault(head + "".join(" " + t for t in dflat), "valid")
                 for k, (d, alts) in enumerate(cands):
                     for alt in alts:
                         toks = [t for j, dd in enumerate(defaults) for t in (alt if j == k else dd)]
-                        lines.add(head + "".join(" " + t for t in toks))
+                        if len(alt) != len(d):
+                            tag = "opcount"
+                        else:
+                            tag = line_tag(d, alt)
+                        lines.setdefault(head + "".join(" " + t for t in toks), tag)
                 for _ in range(per_form_rand):
                     toks = []
                     for d, alts in cands:
                         toks += rng.choice(alts) if alts and rng.random() < 0.6 else d
-                    lines.add(head + "".join(" " + t for t in toks))
+                    lines.setdefault(head + "".join(" " + t for t in toks), "combo")
         for l in sorted(lines):
             if len(l.split()) <= 10:
                 ops.append(l)
-                meta.append(fi)
+                meta.append((fi, lines[l]))
     return ops, meta
 
 
@@ -370,8 +423,12 @@ def run(res):
     res.coverage["accepted"] = len(accepted)
     res.coverage["judged_full"] = len([1 for i in accepted if mon[i] == "good"])
     res.coverage["judged_partial"] = len([1 for i in accepted if mon[i] == "good-partial"])
-    res.coverage["forms_swept"] = len(set(meta))
-    res.coverage["forms_with_accepted_line"] = len({meta[i] for i in accepted})
+    res.coverage["forms_swept"] = len({m[0] for m in meta})
+    res.coverage["forms_with_accepted_line"] = len({meta[i][0] for i in accepted})
+    tags = {}
+    for i in accepted:
+        tags[meta[i][1]] = tags.get(meta[i][1], 0) + 1
+    res.coverage["accepted_by_probe_kind"] = tags
     res.coverage["model_lines"] = modelled
     res.coverage["input_distribution"] = dict(sorted(kinds.items(), key=lambda x: -x[1])[:120])
     res.coverage["traces_validated_against_impl"] = modelled
@@ -381,8 +438,12 @@ def run(res):
     if bad:
         # one violation per failing class (stable key), each with a concrete line
         seen = {}
+        single = {classify_key(ops[i], insts, enc_names) for i, m in bad if meta[i][1] != "combo"}
         for i, m in bad:
-            key = "enc:" + classify_key(ops[i], insts, enc_names) + ":" + m.split()[1 if m.startswith("BAD") else 0]
+            cls = classify_key(ops[i], insts, enc_names)
+            if meta[i][1] == "combo" and cls in single:
+                continue          # random combination in a class that already has a one-operand witness
+            key = "enc:" + cls + ":" + meta[i][1]
             seen.setdefault(key, []).append((i, m))
         for key, lst in sorted(seen.items()):
             i, m = lst[0]
